@@ -785,7 +785,13 @@ fn main() {
     let mut all_viol = Vec::new();
     let mut errors: Vec<String> = Vec::new();
     let cap = if thorough { 2_000_000 } else { 60_000 };
+    let only: Option<String> = args.iter().position(|a| a == "only").and_then(|i| args.get(i + 1).cloned());
     for (name, threads, bound) in scenarios(thorough) {
+        if let Some(o) = &only {
+            if *o != name {
+                continue;
+            }
+        }
         let warm = name.strip_prefix("warm").and_then(|r| r.split('-').next()).and_then(|n| n.parse::<usize>().ok()).unwrap_or(0);
         WARM.store(warm, std::sync::atomic::Ordering::SeqCst);
         let hist = name.strip_prefix("hist").and_then(|r| r.split('-').next()).and_then(|n| n.parse::<usize>().ok()).unwrap_or(0);
